@@ -156,10 +156,18 @@ class C04(DimwiseCheck):
             g = stream(rk, "grid")
             if strategy == "extend_split" and g.random() < 0.25:
                 # the other local grid families that run in this strategy here integrate multilinear functions exactly as well
-                cfg["grid"] = g.choice(ES.LOCAL_GRIDS[1:])
+                cfg["grid"] = g.choice(ES.LOCAL_GRIDS[1:] + ["MixedGrid", "MixedGrid"])
                 cfg["single_dim"] = False
                 if cfg["lmin"] < cfg["lmax"] and g.random() < 0.5:
                     cfg["automatic"] = True
+                if cfg["grid"] == "MixedGrid":
+                    # 1-D families chosen per dimension, each exact for linear functions: with boundary points, or without them in
+                    # the modified basis - so the boundary flags of the dimensions differ
+                    m = stream(rk, "mixed")
+                    cfg["mixed"] = []
+                    for d in range(cfg["dim"]):
+                        k = m.choice(["Trapezoidal", "Trapezoidal", "TrapezoidalMod", "TrapezoidalMod", "ClenshawCurtis", "Simpson"])
+                        cfg["mixed"].append([k, k != "TrapezoidalMod"])
             p = stream(rk, "probes")
             cfg["probes"] = [["ml", [[round(p.uniform(-2, 2), 3), round(p.uniform(-2, 2), 3)] for _ in range(cfg["dim"])]] for _ in range(3)] + \
                             DS.linear_probes(p, cfg["dim"], 1)
